@@ -360,6 +360,48 @@ def _d7(chk, fb):
             chk.unknown("D7", f.key, "removes-only-matching", f.loc(c), "erase form not recognised")
 
 
+def _d8(chk, fb):
+    """index-space agreement: an AliasParameterListener stores a position and the list the position refers to; wherever one is
+    built (make_shared / new / direct construction) the position argument is the result of whichParameterHasName on the very list
+    whose address is passed next to it.  A position looked up in another member list (the independent parameters, which shrink
+    with every alias) addresses a different entry: refuted.  Other forms of the position are not judged"""
+    import re
+
+    def which(text):
+        t = text.replace("this.", "").replace("this->", "")
+        if re.match(r"^&?\(?(getParameters_?\(\)|parameters_)\)?$", t):
+            return "the object's parameter list"
+        m = re.match(r"^&?\(?(\w+_)\)?$", t)
+        return ("member " + m.group(1)) if m else None
+    n = 0
+    for f in fb.concrete_fns():
+        if f.body is None or not (f.cls or "").startswith(APA):
+            continue
+        sub = local_inits(f)
+        for c in list(f.calls()) + [x for x in f.all_nodes() if x["k"] in ("CXXConstructExpr", "CXXNewExpr")]:
+            args = None
+            if is_call(c) and c["callee"]["name"] in ("make_shared", "make_unique") and "AliasParameterListener" in (c.get("ty") or ""):
+                args = f.args(c)
+            elif c["k"] == "CXXConstructExpr" and "AliasParameterListener" in (c.get("ty") or "") and len(kids(c)) == 4:
+                args = kids(c)
+            if not args or len(args) != 4:
+                continue
+            n += 1
+            pos, lst = render(args[1], sub), render(args[2], sub)
+            m = re.match(r"^(.*)\.whichParameterHasName\(", pos)
+            L2 = which(lst)
+            con = "position-in-own-list"
+            if not m or L2 is None or which(m.group(1)) is None:
+                chk.unknown("D8", f.key, con, f.loc(c), "position '%s' / list '%s' not in a recognised form" % (pos[:50], lst[:30]))
+            elif which(m.group(1)) == L2:
+                chk.proved("D8", f.key, con, f.loc(c), "position looked up in %s, listener bound to the same list" % L2)
+            else:
+                chk.refuted("D8", f.key, con, f.loc(c),
+                            "the listener is bound to %s but its position is looked up in %s: as soon as an earlier parameter has left that list the position names another entry, and updates of the source are written to the wrong parameter" % (L2, which(m.group(1))),
+                            witness={"history": "parameters (a, b, c); aliasParameters(a, b); aliasParameters(a, c): the second listener gets position 1 (b) instead of 2 (c)"})
+    chk.floor("D8", "alias listener constructions", n, 1)
+
+
 def run(chk, fb, tier):
     chk.rule("D1", "no loop of the bulk-alias routine has a state-preserving cyclic path (exception edges included)")
     chk.rule("D2", "operator= clears every member it re-populates by insertion")
@@ -377,6 +419,8 @@ def run(chk, fb, tier):
     _d6(chk, fb)
     chk.rule("D7", "Parameter::removeParameterListener erases exactly the listeners with the given id (erase-remove idiom), so that un-aliasing one link leaves the other links attached")
     _d7(chk, fb)
+    chk.rule("D8", "an AliasParameterListener is built with a position looked up (whichParameterHasName) in the same list whose address it is given")
+    _d8(chk, fb)
     from . import copyrule
     chk.rule("DC", "copy constructor and copy assignment copy the same members; operator= empties a member container before re-populating it; copy functions never assign through a stored shared pointer")
     copyrule.check(chk, fb, "DC", lambda c: c["file"].endswith(("Bpp/Numeric/AbstractParameterAliasable.h",)), floor=2)
